@@ -717,7 +717,7 @@ func drawPolicy(src sim.Source, s *sim.Sched) {
 	stay := sim.Pick(src, "stay", [][2]int{{1, 2}, {0, 1}, {3, 4}, {7, 8}, {15, 16}})
 	s.StayNum, s.StayDen = stay[0], stay[1]
 	// each fox point is switched off with probability 1/4 (fewer, longer atomic blocks); never all of them
-	for _, pt := range []sim.Point{sim.PtLocked, sim.PtBeforeLoad, sim.PtAfterLoad, sim.PtCommit, sim.PtStored, sim.PtUnlocked, sim.PtAbort, sim.PtBeforeUnlock, sim.PtBeforeStore, sim.PtRouteOpts, sim.PtAcquire, sim.PtUser, sim.PtTxnFn, sim.PtIter, sim.PtHandler} {
+	for _, pt := range []sim.Point{sim.PtLocked, sim.PtBeforeLoad, sim.PtAfterLoad, sim.PtCommit, sim.PtStored, sim.PtUnlocked, sim.PtAbort, sim.PtBeforeUnlock, sim.PtBeforeStore, sim.PtTryLock, sim.PtRouteOpts, sim.PtAcquire, sim.PtUser, sim.PtTxnFn, sim.PtIter, sim.PtHandler} {
 		if src.Intn("ptoff", 4) == 3 {
 			s.Disabled[pt] = true
 		}
